@@ -7,6 +7,21 @@ import sys
 sys.path.insert(0, str(Path(__file__).resolve().parent.parent))
 V = Path(__file__).resolve().parent.parent
 props = [json.loads(l) for l in (V / "properties.jsonl").read_text().splitlines() if l.strip()]
+
+
+def _tie(m):
+    """the part of technique / level_note that follows from what the check regenerates today (kept current automatically)"""
+    gen = list(getattr(m, "TRANSLATE_ALGO", None) or [])
+    if not gen:
+        return "", ""
+    mods = ", ".join(f"Gen/{g}" for g in gen)
+    tech = (f" + translation tie, re-established on every run: the library functions behind this property are TRANSLATED from the current /repo source into Lean "
+            f"definitions ({mods}; harness/translate_algo.py + harness/algo_specs/*.py, plus every generated module these import), kernel-checked REFINEMENT theorems identify the generated "
+            f"definitions with the model / specification for every input (induction, invariants, fuel sufficiency included), and the generated definitions are executed through the driver against the real functions")
+    note = (f" Translation tie (DESIGN §2.2b): a source change alters the generated definitions the theorems are about — the refinement proof still checks, or a named theorem / the translator fails and the failing-input search runs. "
+            f"Trusted there: the translator and its Python semantics library (Model/Py*.lean), and the glue listed per group in design_notes/session4/*.md (callbacks standing for geometry, codecs, float formatting, regex matching).")
+    return tech, note
+
 checks, na = [], []
 for p in props:
     pid = p["id"]
@@ -35,8 +50,8 @@ for p in props:
             "text": m.LEVEL_TEXT,
             "design_ref": f"DESIGN.md §5 {pid}",
         },
-        "level_note": m.LEVEL_NOTE,
-        "technique": m.TECHNIQUE,
+        "level_note": m.LEVEL_NOTE + _tie(m)[1],
+        "technique": m.TECHNIQUE + _tie(m)[0],
     })
 man = {
     "version": 1,
